@@ -1,4 +1,8 @@
 #!/bin/sh
+# Builds the checker from files on disk only (offline).
 set -e
 cd "$(dirname "$0")"
-exit 0
+export GOFLAGS=-mod=mod GOPROXY=off GOSUMDB=off GOTOOLCHAIN=local CGO_ENABLED=0
+mkdir -p bin evidence
+(cd engine && go build -o ../bin/gosym ./cmd/gosym)
+echo "built bin/gosym"
